@@ -19,6 +19,7 @@ import (
 	"go.brendoncarroll.net/p2p"
 	"go.brendoncarroll.net/p2p/f/x509"
 	"go.brendoncarroll.net/p2p/p/kademlia"
+	"go.brendoncarroll.net/p2p/p/mbapp"
 	"go.brendoncarroll.net/p2p/p/p2pke"
 	"go.brendoncarroll.net/p2p/s/memswarm"
 	"go.brendoncarroll.net/p2p/s/p2pkeswarm"
@@ -31,6 +32,7 @@ import (
 	"verifmc/sc/c01"
 	"verifmc/stacks"
 	"verifmc/vrt"
+	"verifmc/vrt/vctx"
 	"verifmc/vrt/vsync"
 )
 
@@ -278,6 +280,83 @@ func extraScenarios(pb int) []*explore.Scenario {
 			})
 		}
 	}))
+	// callbacks own their buffers: an ask whose deadline expires while its handler is still
+	// running, followed by more traffic for the same receive worker. The handler re-reads
+	// its message after the later traffic has been processed.
+	for _, stackKind := range []string{"mbapp", "mem"} {
+		stackKind := stackKind
+		name := stackKind + "-ask-deadline-expires-in-handler"
+		type res struct {
+			cell          hx.Cell
+			inHandler     bool
+			laterSent     bool
+			before, after string
+		}
+		sc := &explore.Scenario{Name: name, PB: pb}
+		sc.Setup = func(x *vrt.Exec) {
+			x.MaxSteps = 20000
+			x.TimerHorizon = 10 * time.Second
+			x.AutoTimers = true
+			x.NumWorkers = 1
+			x.Data = &res{}
+		}
+		sc.Body = func(x *vrt.Exec) {
+			r := x.Data.(*res)
+			x.NoBranch = true
+			mbapp.VerifSetDisableFastPath(false) // production default: single-part messages alias the worker's buffer
+			st := stacks.Build(stacks.Config{Kind: stackKind, N: 2, MTU: 1 << 16, Workers: 1})
+			bg, cf := hx.WithCancel(context.Background())
+			vrt.Go("serve", func() {
+				st.Nodes[0].ServeAsk(bg, func(_ context.Context, resp []byte, m stacks.Msg) int {
+					r.cell.Touch()
+					r.before = string(m.Payload)
+					r.inHandler = true
+					// a slow handler: still at work when the asker has given up and sent more
+					hx.WaitUntil(&r.cell, "handler: slow", func() bool { return r.laterSent })
+					r.after = string(m.Payload)
+					return copy(resp, "late")
+				})
+			})
+			vrt.Go("receive", func() {
+				for st.Nodes[0].Receive(bg, func(stacks.Msg) {}) == nil {
+				}
+			})
+			vrt.Go("asker", func() {
+				ctx, cancel := vctx.WithTimeout(bg, time.Second)
+				defer cancel()
+				buf := make([]byte, 16)
+				st.Nodes[1].Ask(ctx, buf, 0, p2p.IOVec{[]byte("AAAAAAAAAAAAAAAA")})
+				for i := 0; i < 2; i++ {
+					st.Nodes[1].Tell(bg, 0, p2p.IOVec{[]byte("BBBBBBBBBBBBBBBB")})
+				}
+				// let the deadline the ask carried pass on the server as well
+				x.SettleUntil(3 * time.Second)
+				r.cell.Touch()
+				r.laterSent = true
+				x.Settle()
+				x.NoBranch = true
+				cf()
+				for _, n := range st.Nodes {
+					n.Close()
+				}
+			})
+		}
+		sc.Check = func(x *vrt.Exec) []explore.Finding {
+			r := x.Data.(*res)
+			if x.HorizonHit {
+				return []explore.Finding{{Kind: "step-horizon", Site: name, Detail: "did not finish"}}
+			}
+			if r.inHandler && r.after != "" && r.after != r.before {
+				return []explore.Finding{{Kind: "callback-buffer-reused-while-handler-runs", Site: stackKind, Detail: fmt.Sprintf("the ServeAsk handler was given %q; while it was still running the same buffer read %q (contents of a later message)", r.before, r.after)}}
+			}
+			return nil
+		}
+		sc.Outcome = func(x *vrt.Exec) string {
+			r := x.Data.(*res)
+			return fmt.Sprintf("handler=%v before=%q after=%q", r.inHandler, r.before, r.after)
+		}
+		out = append(out, sc)
+	}
 	return out
 }
 
